@@ -785,7 +785,22 @@ fn build_one(c: &mut Ctx, fam: &str, idx: u64, rng: &mut Rng) {
             items.push(ModelItem { section: 1, owner: o, rtype: w::T_A, class: 1, ttl: 300, fs: vec![Fv::Raw(rng.bytes(4))] });
         }
     }
-    let n = if size_class == 4 && idx % 50 == 9 { 0 } else if size_class == 4 { big_pool.len() + rng.range(0, 30) } else { rng.range(2, 14) };
+    // labels whose 16-bit hash in the new compressor is zero, below the first name of the message
+    // (a lookup for "child of entry 0 with hash 0" must not take an empty table slot for a match)
+    let hash_zero = size_class == 4 && matches!(idx % 50, 14 | 19);
+    if hash_zero {
+        let base = names::from_labels(&[b"x".to_vec(), b"example".to_vec()]);
+        items.push(ModelItem { section: 1, owner: base.clone(), rtype: w::T_A, class: 1, ttl: 300, fs: vec![Fv::Raw(rng.bytes(4))] });
+        for l in ["h18557", "host18585", "www58570", "n22283", "H26934", "host19099"] {
+            if rng.bool() {
+                let mut o = vec![l.len() as u8];
+                o.extend_from_slice(l.as_bytes());
+                o.extend_from_slice(&base);
+                items.push(ModelItem { section: 1, owner: o.clone(), rtype: w::T_NS, class: 1, ttl: 300, fs: vec![Fv::Name { wire: o, lc: true, compress: true }] });
+            }
+        }
+    }
+    let n = if size_class == 4 && idx % 50 == 9 || hash_zero { 0 } else if size_class == 4 { big_pool.len() + rng.range(0, 30) } else { rng.range(2, 14) };
     let mut sec = 1u8;
     for k in 0..n {
         if size_class == 4 {
